@@ -104,6 +104,51 @@ def rule_failed_notice(ctx, rep):
     rep.check("R-FAILED-NOTICE", pd.qname, pd.loc(), stores_none, "records-no-store", "process_dependencies does not record `None` when no manifest exists")
 
 
+def rule_store_coherent(ctx, rep):
+    rep.rule(
+        "R-STORE-COHERENT",
+        "PackageStore.has_requirement decides from the very container DependencyWriter.add registers new requirements in "
+        "(self.dependencies), with no memoised copy in between — otherwise the second codemod of a run (or a second dependency with the "
+        "same name) is added again",
+        min_instances=2,
+    )
+    from ..prov import is_cached
+
+    hr = ctx.prog.func("codemodder.project_analysis.file_parsers.package_store.PackageStore.has_requirement")
+    attrs = {n.attr for n in walk_no_nested(hr.node) if isinstance(n, ast.Attribute) and isinstance(n.value, ast.Name) and n.value.id == "self"}
+    cached_reads = []
+    cls = hr.cls
+    for a in attrs:
+        m = cls.methods.get(a)
+        if m is not None and is_cached(m):
+            cached_reads.append(a)
+    ok = "dependencies" in attrs and not cached_reads and not is_cached(hr)
+    rep.check("R-STORE-COHERENT", hr.qname, hr.loc(), ok, "reads-live-container",
+              f"has_requirement answers from {sorted(attrs)} (memoised: {cached_reads or is_cached(hr)}) rather than directly from self.dependencies")
+    add = ctx.prog.func(WRITER + ".add")
+    regs = [n for n in walk_no_nested(add.node) if isinstance(n, ast.Call) and last_attr(n.func) in ("add", "append") and unparse(n.func.value).endswith("dependency_store.dependencies")]
+    rep.check("R-STORE-COHERENT", add.qname, add.loc(), bool(regs), "registers-in-same-container",
+              "DependencyWriter.add does not register the new requirement in dependency_store.dependencies (the container has_requirement reads)")
+    # name comparison is by requirement name (any version)
+    t = unparse(hr.node)
+    rep.check("R-STORE-COHERENT", hr.qname, hr.loc(), ".name" in t, "by-name", "has_requirement no longer compares requirement names (a package already declared in another version would be added again)")
+
+
+def rule_requirement_constants(ctx, rep):
+    from .c01 import QUOTES
+
+    rep.rule("R-REQ-CONSTANTS", "the requirement strings the writers interpolate into manifests (codemodder/dependency.py) contain no quote characters or newlines (setup.py wraps them in a fixed double quote)", 1)
+    dep = ctx.prog.module("codemodder.dependency")
+    bad, n = [], 0
+    for node in ast.walk(dep.tree):
+        if isinstance(node, ast.Call) and last_attr(node.func) == "Requirement" and node.args and isinstance(node.args[0], ast.Constant):
+            n += 1
+            if any(ch in str(node.args[0].value) for ch in QUOTES + ("\n",)):
+                bad.append(node.args[0].value)
+    rep.check("R-REQ-CONSTANTS", "codemodder.dependency", "src/codemodder/dependency.py:1", not bad and n >= 3, "no-quotes",
+              f"requirement constants {bad} contain quote characters: SetupPyWriter emits them inside a fixed \" and produces an unparseable setup.py", count=n)
+
+
 def rule_shared(ctx, rep):
     from ..report import Report
     from . import c03, c04, c05, c11
@@ -135,5 +180,7 @@ def check(ctx, rep):
     rule_first_wins(ctx, rep)
     rule_filtered_add(ctx, rep)
     rule_failed_notice(ctx, rep)
+    rule_store_coherent(ctx, rep)
+    rule_requirement_constants(ctx, rep)
     rule_shared(ctx, rep)
     rep.not_covered += ["validity / preservation of arbitrary manifest texts under the writers' text surgery", "name canonicalisation in has_requirement"]
